@@ -233,6 +233,8 @@ def main():
         if a.checks:
             tc["checks"] = a.checks
         tcfgs.append((part["name"], part["run"], tc))
+    if cfg["flavour"] == "instr":
+        tcfgs.insert(0, ("regress", "^TestRegress$", {"shards": 1, "checks": 1, "timeout": 300}))
     try:
         verif_seed = int(os.environ.get("VERIF_SEED", "1"))
     except ValueError:
@@ -303,6 +305,7 @@ def main():
                 "exhaustive": False,
                 "counters": counters,
                 "parts": [{"name": n, "tests": r, "shards": tc["shards"], "rapid_checks_per_shard": tc["checks"]} for n, r, tc in tcfgs],
+                "regress_replays_run": int(counters.get("regress_replays", 0)),
                 "shard_seeds": [results[i]["seed"] for i in sorted(results)],
                 "generator_notes": notes[:20],
             },
